@@ -1,5 +1,7 @@
 (* C17, trie part (lib/trie.c behind lib/map.c): the property theorems.  Statements only; each is closed by `exact`.
-   Model: MapTrieModel.v (`run true` = the code with fixes/C17-trie-rm-alive.patch, `run false` = as found).
+   Model: MapTrieModel.v; `run fx`: fx selects the code variant (FX_FOUND = as first found, FX_REPO = with the trie_rm
+   repair 2f5e8c6, FX_ALL = also fixes/C18-trie-removed-parked.patch and fixes/C18-trie-split-keeps-node.patch); the
+   dictionary theorems hold for every variant that has the trie_rm repair.
    Proved for ALL histories: no error state and get / rm / count answer like a dictionary, also when notifier
    registrations create and release value-less nodes in between.  NOT proved here (checked on generated scripts
    against the implementation by the monitor of vlib/maptrie.py, see reports/maptrie.md): completeness and order of
@@ -22,10 +24,10 @@ Print Assumptions C17T_char2index_injective.
 (* trie_insert (splits, segment extension, new children) changes no observation: whatever key is looked up
    afterwards sees the same key / value / reference count / notifier list as before, the node for the inserted key
    is the one trie_lookup finds, and node-local well-formedness is kept *)
-Theorem C17T_insert_changes_no_observation : forall n k hdr nid n' p nid',
-  all_t wfi n -> Forall (fun b => b <> 0) k -> ins_t n k hdr nid = (n', p, nid') ->
+Theorem C17T_insert_changes_no_observation : forall fx n k hdr nid n' p nid',
+  all_t wfi n -> Forall (fun b => b <> 0) k -> ins_t fx n k hdr nid = (n', p, nid') ->
   (forall q, obs_t n' q = obs_t n q) /\ look_t n' k true = Some p /\ all_t wfi n'.
-Proof. exact (fun n => ins_ok (size_t n) n (le_n _)). Qed.
+Proof. exact (fun fx n => ins_ok fx (size_t n) n (le_n _)). Qed.
 Print Assumptions C17T_insert_changes_no_observation.
 
 (* trie_node_release frees only nodes no lookup can tell from an absent node *)
@@ -40,15 +42,15 @@ Print Assumptions C17T_release_changes_no_observation.
 (* THE dictionary theorem: every history of put / get / rm / count over non-empty C-string keys runs without an
    error state and returns exactly what the dictionary specification returns (get: latest value or nothing;
    rm: success exactly when present, and then gone; count: number of keys present, modulo the width of size_t) *)
-Theorem C17T_dictionary_all_histories : forall ops, Forall dop_valid ops ->
-  exists outs t', run true trie_init (map to_op ops) = (outs, Ok t') /\ map fst outs = fst (spec_run [] ops).
+Theorem C17T_dictionary_all_histories : forall fx ops, f_rm fx = true -> Forall dop_valid ops ->
+  exists outs t', run fx trie_init (map to_op ops) = (outs, Ok t') /\ map fst outs = fst (spec_run [] ops).
 Proof. exact trie_refines_dict. Qed.
 Print Assumptions C17T_dictionary_all_histories.
 
 (* ... also when notifier registrations / deletions (any keys, prefixes of present keys, absent keys; any flags)
    are interleaved: they create and release value-less nodes, which must never be mistaken for keys *)
-Theorem C17T_dictionary_with_notifier_nodes : forall hs, Forall hop_valid hs ->
-  exists outs t', run true trie_init (map hop_op hs) = (outs, Ok t') /\
+Theorem C17T_dictionary_with_notifier_nodes : forall fx hs, f_rm fx = true -> Forall hop_valid hs ->
+  exists outs t', run fx trie_init (map hop_op hs) = (outs, Ok t') /\
                   dict_outs hs (map fst outs) = fst (spec_run [] (dict_part hs)).
 Proof. exact trie_refines_dict_with_notifiers. Qed.
 Print Assumptions C17T_dictionary_with_notifier_nodes.
@@ -58,12 +60,12 @@ Print Assumptions C17T_dictionary_with_notifier_nodes.
    above are met by this history (non-vacuity) *)
 Theorem C17T_rm_of_absent_key_refuted :
   Forall dop_valid w_rm_interior /\
-  outs_of false (map to_op w_rm_interior) = [RUnit; RUnit; RInt TRIE_QB_TRUE; RInt 1] /\
+  outs_of FX_FOUND (map to_op w_rm_interior) = [RUnit; RUnit; RInt TRIE_QB_TRUE; RInt 1] /\
   fst (spec_run [] w_rm_interior) = [RUnit; RUnit; RInt TRIE_QB_FALSE; RInt 2].
 Proof. exact rm_absent_refuted. Qed.
 Print Assumptions C17T_rm_of_absent_key_refuted.
 
-Example C17T_rm_of_absent_key_fixed : outs_of true (map to_op w_rm_interior) = fst (spec_run [] w_rm_interior).
+Example C17T_rm_of_absent_key_fixed : outs_of FX_REPO (map to_op w_rm_interior) = fst (spec_run [] w_rm_interior).
 Proof. exact rm_absent_fixed. Qed.
 
 (* "ascending key order" read as strcmp order is false of the trie for bytes >= 0x80 (known finding
